@@ -1204,15 +1204,6 @@ def check_hdf5_results_condition(ctx, rule='R-AGREE/hdf5-results-condition'):
     outer = db.fn('cli.from_specified_markers:run_mapping')
     ctx.touch(inner)
     ctx.touch(outer)
-    stored = set()
-    for fi in (inner, outer):
-        for st in ast.walk(fi.node):
-            if isinstance(st, ast.Assign) and isinstance(
-                    st.targets[0], ast.Subscript) and isinstance(
-                        st.targets[0].value, ast.Name) \
-                    and st.targets[0].value.id == 'output' \
-                    and isinstance(st.targets[0].slice, ast.Constant):
-                stored.add(st.targets[0].slice.value)
     # removals in run_mapping from which the HDF5 writer is reachable
     cfg = cfg_of(outer)
     rd = rd_of(outer)
@@ -1229,6 +1220,31 @@ def check_hdf5_results_condition(ctx, rule='R-AGREE/hdf5-results-condition'):
                     calls.append((node, a.id))
     if not calls:
         raise AnalysisError('run_mapping: call of blob_to_hdf5 not found')
+    # what is stored in the blob: constant-key stores into the local the
+    # writer is handed, here and in the function whose result it is (the
+    # locals are found by flow, not by name)
+    stored = set()
+
+    def const_stores(fn, names):
+        for st in ast.walk(fn.node):
+            if isinstance(st, ast.Assign) and isinstance(
+                    st.targets[0], ast.Subscript) and isinstance(
+                        st.targets[0].value, ast.Name) \
+                    and st.targets[0].value.id in names \
+                    and isinstance(st.targets[0].slice, ast.Constant):
+                stored.add(st.targets[0].slice.value)
+    blobs = {b for (_n, b) in calls}
+    const_stores(outer, blobs)
+    for d in rd.defs:
+        v = getattr(d, 'value', None)
+        if d.name in blobs and isinstance(v, ast.Call):
+            t = resolve_callee(db, outer, v)
+            if isinstance(t, FunctionInfo):
+                ctx.touch(t)
+                rets = {r.value.id for r in ast.walk(t.node)
+                        if isinstance(r, ast.Return)
+                        and isinstance(r.value, ast.Name)}
+                const_stores(t, rets)
     removed = dict()
     for node in cfg.nodes:
         if node.id not in rd.live or node.ast is None:
